@@ -565,6 +565,9 @@ func smtRef(t *Term) string {
 	case OpSym:
 		return "|" + t.name + "|"
 	case OpPred, OpFn32:
+		if t.a.op == OpSym {
+			return "|ub:" + t.name + ":" + t.a.name + "|"
+		}
 		return fmt.Sprintf("u%d", t.id)
 	}
 	return fmt.Sprintf("t%d", t.id)
